@@ -112,6 +112,7 @@ type muxRun struct {
 	mu       sync.Mutex
 	closeRet bool
 	closed   bool
+	closed2  bool // Close has been called a second time
 	replies  int
 	out      func(muxLine)
 }
@@ -413,11 +414,13 @@ func (r *muxRun) step(a muxAct) {
 	case "Remove":
 		r.mux.RemoveConnByUfrag(a.U)
 	case "Close":
-		if r.closed {
+		if r.closed && r.closed2 {
 			skip("already closing")
 
 			break
 		}
+		// a second Close call, made while the first is under way or after it: it too returns only when the mux is through
+		r.closed2 = r.closed
 		r.closed = true
 		go func() {
 			_ = r.mux.Close()
